@@ -21,6 +21,11 @@ import TraitsVerif.Model.SetAttr
 namespace TraitsVerif.Model.PyW
 open TraitsVerif TraitsVerif.Model.Attr
 
+/-- One component of the argument tuple a handler receives. -/
+inductive Sel where
+  | obj | name | old | new
+  deriving DecidableEq, Repr
+
 inductive Val where
   | stuck | none
   | bool (b : Bool)
@@ -34,6 +39,8 @@ inductive Val where
   | nameV (k : Nat)
   /-- `type(x)` / `MethodType`: is it the bound-method type? -/
   | ty (isMethod : Bool)
+  /-- the argument tuple built for the user's handler: the selected components of (object, name, old, new) -/
+  | tuple (sels : List Sel) (old new : Id)
   deriving DecidableEq, Repr
 
 inductive Glob where
@@ -65,6 +72,7 @@ inductive Fn where
   | tracer                   -- `_pre_change_event_tracer(...)` / `_post_change_event_tracer(...)`
   | type_of                  -- `type(x)`
   | owner_deref              -- `self.object()`: the listener object of a method wrapper (None when dead)
+  | owner_remove             -- `self.owner.remove(self)`: the wrapper takes itself out of the notifier list
   deriving DecidableEq, Repr
 
 inductive Expr where
@@ -90,6 +98,8 @@ inductive Stmt where
   | ret (e : Expr)
   /-- `try: b  except Exception [as v]: h  else: o` -/
   | tryS (b : Stmt) (v : Option Nat) (h o : Stmt)
+  /-- `self.a = self.b = … = e` (`n` wrapper attributes; the model keeps no wrapper fields) -/
+  | setSelf (n : Nat) (e : Expr)
   deriving Repr
 
 structure Func where
@@ -124,6 +134,10 @@ structure WC where
   wrapFn : Id := 0
   /-- the handler `equals` is asked about -/
   cand : Cand := .func 0
+  /-- `self.argument_transform`: the entry of `argument_transforms` chosen in `__init__` for the handler's arity -/
+  xform : List Sel := [.obj, .name, .old, .new]
+  /-- does the weak reference to the owner of a method wrapper still refer to something? -/
+  ownerAlive : Bool := true
 
 structure MS where
   vars : Nat → Val
@@ -205,10 +219,11 @@ def callFn (C : WC) : Fn → List Val → MS → R
      | none => (.ok .stuck, ms))
   | .object_trait, [.object, .name, .int 2], ms => (.ok .trait, { ms with s := ms.s.ensureItrait })
   | .event_trait, [.object, .name], ms => (.ok .trait, ms)
-  | .argument_transform, [.object, .name, .id _, .id _], ms => (.ok .args, ms)
-  | .user_handler, [.args], ms => invoke C ms
+  | .argument_transform, [.object, .name, .id o, .id n], ms =>
+    (.ok (.tuple C.xform o n), ms)
+  | .user_handler, [.tuple _ _ _], ms => invoke C ms
   | .user_handler, [.handler, .event], ms => invoke C ms
-  | .dispatch, [.handler, .args], ms => invoke C ms
+  | .dispatch, [.handler, .tuple _ _ _], ms => invoke C ms
   -- `self._dispatch_change_event(object, name, old, new, handler)`: tied to its own text by `dispatch_change_event_is_source`
   | .dispatch_change_event, [.object, .name, .id _, .id _, .handler], ms =>
     (match invoke C ms with
@@ -222,7 +237,8 @@ def callFn (C : WC) : Fn → List Val → MS → R
   | .type_of, [.cand], ms => (.ok (.ty (match C.cand with | .method _ _ => true | _ => false)), ms)
   | .type_of, [.self], ms => (.ok (.ty false), ms)
   | .owner_deref, [.self], ms => (.ok (match C.wrapOwner with | some o => .id o | none => .none), ms)
-  | .weak_deref, [.weak], ms => (.ok .object, ms)
+  | .weak_deref, [.weak], ms => (.ok (if C.ownerAlive then .object else .none), ms)
+  | .owner_remove, [.self], ms => (.ok .none, { ms with s := ms.s.removeSelf C.n C.loc })
   | .weak_deref, [.handler], ms => (.ok .handler, ms)
   | .weak_deref, [.self], ms => (.ok .object, ms)
   | .event_factory, _, ms => (.ok .event, ms)
@@ -326,6 +342,10 @@ def exec (C : WC) : Stmt → MS → MS × Flow
   | .ret e, ms =>
     (match eval C e ms with
      | (.ok v, ms1) => (ms1, .returned v)
+     | (.error x, ms1) => (ms1, .raised x))
+  | .setSelf _ e, ms =>
+    (match eval C e ms with
+     | (.ok v, ms1) => if v = .stuck then (ms1, .returned .stuck) else (ms1, .next)
      | (.error x, ms1) => (ms1, .raised x))
   | .tryS b v h o, ms =>
     (match exec C b ms with
